@@ -618,9 +618,10 @@ func randTais(rng *rand.Rand, n int) []TaiJ {
 	base := rng.Intn(1 << 24)
 	for i := 0; i < n; i++ {
 		p := pl[rng.Intn(np)]
-		tac := ev.Runes(fmt.Sprintf("%06x", rng.Intn(1<<24)))
+		hexfmt := []string{"%06x", "%06X"}[rng.Intn(2)] // hexadecimal text is legal in either case
+		tac := ev.Runes(fmt.Sprintf(hexfmt, rng.Intn(1<<24)))
 		if np == 1 && n%2 == 0 {
-			tac = ev.Runes(fmt.Sprintf("%06x", (base+i)%(1<<24))) // consecutive TACs
+			tac = ev.Runes(fmt.Sprintf(hexfmt, (base+i)%(1<<24))) // consecutive TACs
 		}
 		o = append(o, TaiJ{Mcc: p.Mcc, Mnc: p.Mnc, Tac: tac})
 	}
